@@ -13,15 +13,24 @@ done <<'LIST'
 C01-1 k_decimal_try_add_digit
 C01-2 e_owned_load_then_parse
 C02-1 b_skip_number_w30
-C02-2 u_parse_number_grammar_n7
+C02-2 s_float_fast_bounds
 C03-1 k_unicode_inplace
 C03-2 m_number_visit_raw_n7
 C05-1 u_format_string_n3
 C05-2 w_buffered_writer_short_writes
+C05-3 k_string_tables
+C05-4 w_buffered_writer_short_writes
+C05-5 u_map_key_char_goes_through_escaper
 C07-1 u_parse_number_int_len20
 C07-2 k_decimal_round_6
-C08-1 k_float_fast_mul_e1
+C07-3 s_float_fast_bounds
+C07-4 s_float_fast_bounds
+C07-5 k_decimal_round_6
+C08-1 s_float_fast_bounds
 C08-2 b_skip_number_w30
+C08-3 k_float_nonfinite_null
+C08-4 u_skip_number_n5
+C08-5 s_float_fast_bounds
 C09-1 k_unicode_copying
 C09-2 k_string_block
 C10-1 b_skip_string_unchecked_w27
@@ -30,6 +39,9 @@ C12-1 b_skip_string_unchecked_w27
 C12-2 u_skip_string_n8
 C13-1 u_owned_mut_probe_keeps_raw
 C13-2 b_skip_string_unchecked_tail_w27
+C13-3 u_skip_string_n8
+C13-4 u_owned_get_mut_probe_keeps_raw
+C13-5 e_lazy_parse_from
 C14-1 b_skip_number_w30
 C14-2 u_skip_string_n8
 C17-1 k_simd_i8x32
@@ -45,10 +57,11 @@ revert-F3 w_io_bufwriter_order
 revert-F4 e_lazy_parse_from_frees e_owned_load1
 revert-F5 k_unicode_copying
 revert-F7 u_owned_from_lazy_types
-revert-F8 u_owned_view_of_raw_array u_owned_view_of_raw_object
+revert-F8 u_owned_new_types
 revert-F9 u_parse_number_int_len1_12
 revert-F10 m_get_object_checked_n6
 revert-F11 m_skip_one_dispatch_n7
+revert-F12 u_owned_clone_loaded_keeps_raw
 LIST
 wait
 python3 tools/seeded_table.py
